@@ -31,7 +31,8 @@ _pairs = {}
 def xml_text():
     from hypothesis import strategies as st
     hot = st.sampled_from(list(u'<>&"\' \n\t]') + [u']]>', u'&amp;', u'&#x41;', u'&lt;', u'<saml:Attribute Name="evil">', u'</saml:AttributeValue><saml:AttributeValue>injected',
-                                                   u'<!--', u'-->', u'<?pi?>', u'\xe9', u'€', u'\U0001F600', u'é', u'  lead', u'trail  ', u'a  b', u'\r\n', u'\r'])
+                                                   u'<!--', u'-->', u'<?pi?>', u'\xe9', u'€', u'\U0001F600', u'é', u'  lead', u'trail  ', u'a  b', u'\r\n', u'\r',
+                                                   u'\\', u'\\1', u'\\g<0>', u'\\n', u'C:\\Users\\x', u'%s', u'%(a)s', u'{0}', u'$1', u'${x}'])
     chars = st.characters(codec='utf-8', exclude_categories=('Cs',), exclude_characters=u'￾￿').filter(lambda c: ord(c) >= 32 or c in u'\t\n\r')
     return st.one_of(st.text(alphabet=chars, max_size=20), st.lists(st.one_of(hot, st.text(alphabet=chars, max_size=4)), min_size=1, max_size=6).map(u''.join),
                      st.text(alphabet=st.sampled_from(list(u'ab <&\xe9')), min_size=200, max_size=1500))
